@@ -113,9 +113,10 @@ class _MA(object):
             return a.copy()
         g, m = a._snapshot(), a.mask
         if a.dtype == "bool":
-            # filling a boolean masked array with nan gives a float array
-            fv = SNum.lift(fill_value)
-            return SArr(a.axes, lambda idx: sym.elem_ite(bz(m(idx)), fv, g(idx).num()), "float", a.sel, None, flat=a.flat)
+            # np.ma.filled keeps the dtype: the fill value is cast to bool (bool(nan) is True, bool(0) is False)
+            fb = _np.bool_(fill_value)
+            fill = SBool(bool(fb))
+            return SArr(a.axes, lambda idx: SBool(sym.Ite(bz(m(idx)), fill.z, g(idx).z)), "bool", a.sel, None, flat=a.flat)
         fv = SNum.lift(fill_value)
         return SArr(a.axes, lambda idx: sym.elem_ite(bz(m(idx)), fv, g(idx)), a.dtype, a.sel, None, flat=a.flat)
 
